@@ -117,12 +117,20 @@ pub fn plan(p: u32, tier: &str) -> Vec<Run> {
         x.faults = vec![false, true];
         x
     };
+    // late-requirement families (6-7 job graphs; the second evaluation changes inputs / deletes outputs)
+    let late = |name: &str, faults2: bool| {
+        let mut x = s(name, 2, m);
+        x.faults = vec![false, faults2];
+        x
+    };
     let eph_shapes = ["late-requirement", "E-E-O+A", "E-E-E-O+A", "E-E-O+A-mid", "E-O-E-O"];
     match p {
         1 => {
             add(s3(true), families::slots(3));
             add(s4(false), families::slots(4));
             add(s4d2ff(), families::slots(4));
+            add(late("latepair", true), families::late_pair());
+            add(late("bigshapes", true), families::big_shapes());
             let mut ig = s("S3D2-ignore", 2, m);
             ig.faults = vec![true, false];
             add(ig, families::slots_ignore(3));
@@ -147,6 +155,9 @@ pub fn plan(p: u32, tier: &str) -> Vec<Run> {
             add(s3(false), families::slots(3));
             add(s4(false), families::slots(4));
             add(s4d2ff(), families::slots(4));
+            add(late("late2x", true), families::late_gadget(2, true));
+            add(late("latepair", true), families::late_pair());
+            add(late("bigshapes", true), families::big_shapes());
             add(shapes_spec("eph-shapes-D2", 2, false), shapes_named(&eph_shapes));
             if thorough {
                 add(s3d3(), families::slots(3));
@@ -163,6 +174,9 @@ pub fn plan(p: u32, tier: &str) -> Vec<Run> {
             add(s3(true), families::slots(3));
             add(s4(false), families::slots(4));
             add(s4d2ff(), families::slots(4));
+            add(late("late2x", true), families::late_gadget(2, true));
+            add(late("latepair", true), families::late_pair());
+            add(late("bigshapes", true), families::big_shapes());
             add(rename("rename-prod", Conv::Parts, Cmp::Prod), families::rename_opts(true, Kind::O, false));
             add(rename("rename-test", Conv::JobIds, Cmp::Plain), families::rename_opts(false, Kind::O, false));
             add(noise("S3D2-noise", 2, false, false), families::slots(3));
@@ -189,6 +203,9 @@ pub fn plan(p: u32, tier: &str) -> Vec<Run> {
             add(s3(false), families::slots(3));
             add(s4(false), families::slots(4));
             add(s4d2ff(), families::slots(4));
+            add(late("late2x", true), families::late_gadget(2, true));
+            add(late("latepair", true), families::late_pair());
+            add(late("bigshapes", true), families::big_shapes());
             let mut o = s("S3D2-orders", 2, m);
             o.orders = Orders::AllNodes;
             add(o, families::slots(3));
@@ -209,6 +226,9 @@ pub fn plan(p: u32, tier: &str) -> Vec<Run> {
             add(s3(true), families::slots(3));
             add(s4(false), families::slots(4));
             add(s4d2ff(), families::slots(4));
+            add(late("late2x", true), families::late_gadget(2, true));
+            add(late("latepair", true), families::late_pair());
+            add(late("bigshapes", true), families::big_shapes());
             add(shapes_spec("shapes-D2", 2, false), families::shapes(true));
             add(rename("rename-prod", Conv::Parts, Cmp::Prod), families::rename_opts(false, Kind::O, false));
             if thorough {
@@ -227,6 +247,9 @@ pub fn plan(p: u32, tier: &str) -> Vec<Run> {
             add(s3(false), families::slots(3));
             add(s4(false), families::slots(4));
             add(s4d2ff(), families::slots(4));
+            add(late("late2x", true), families::late_gadget(2, true));
+            add(late("latepair", true), families::late_pair());
+            add(late("bigshapes", true), families::big_shapes());
             add(s("S3D2-volatile", 2, m), families::slots_volatile(3));
             add(shapes_spec("shapes-D2", 2, false), families::shapes(true));
             if thorough {
@@ -241,10 +264,13 @@ pub fn plan(p: u32, tier: &str) -> Vec<Run> {
         8 | 9 => {
             add(s3(true), families::slots(3));
             add(s4(true), families::slots(4));
-            // failures the engine declares itself (a validated Ephemeral changing its output)
-            let mut v = s("S3D2-volatile+follow", 2, m);
-            v.follow = true;
-            add(v, families::slots_volatile(3));
+            if p == 8 {
+                // failures the engine declares itself (a validated Ephemeral changing its output);
+                // not for C09: a volatile job's output differs between the resume and the uninterrupted run
+                let mut v = s("S3D2-volatile+follow", 2, m);
+                v.follow = true;
+                add(v, families::slots_volatile(3));
+            }
             if thorough {
                 add(s3d3(), families::slots(3));
                 let mut d3f = s("S3D3-follow-last", 3, m);
@@ -263,6 +289,9 @@ pub fn plan(p: u32, tier: &str) -> Vec<Run> {
             add(s3(false), families::slots(3));
             add(s4(false), families::slots(4));
             add(s4d2ff(), families::slots(4));
+            add(late("late2x", true), families::late_gadget(2, true));
+            add(late("latepair", true), families::late_pair());
+            add(late("bigshapes", true), families::big_shapes());
             add(shapes_spec("shapes-D1", 1, false), families::shapes(true));
             if thorough {
                 add(s3d3(), families::slots(3));
@@ -305,6 +334,9 @@ pub fn plan(p: u32, tier: &str) -> Vec<Run> {
             add(s3(false), families::slots(3));
             add(s4(false), families::slots(4));
             add(s4d2ff(), families::slots(4));
+            add(late("late2x", true), families::late_gadget(2, true));
+            add(late("latepair", true), families::late_pair());
+            add(late("bigshapes", true), families::big_shapes());
             add(shapes_spec("shapes-D2", 2, false), families::shapes(true));
             if thorough {
                 add(s3d3(), families::slots(3));
@@ -323,6 +355,9 @@ pub fn plan(p: u32, tier: &str) -> Vec<Run> {
             add(o4, families::slots(4));
             add(rename("rename-prod", Conv::Parts, Cmp::Prod), families::rename_opts(true, Kind::O, false));
             add(shapes_spec("shapes-D2", 2, false), families::shapes(true));
+            add(late("late2x-ff", false), families::late_gadget(2, true));
+            add(late("latepair-ff", false), families::late_pair());
+            add(late("bigshapes-ff", false), families::big_shapes());
             if thorough {
                 let mut oa = s("S3D2-orders-all", 2, m);
                 oa.orders = Orders::All;
@@ -368,6 +403,7 @@ pub fn plan(p: u32, tier: &str) -> Vec<Run> {
             v4.edit_bound = Some(2);
             v4.faults = vec![false, true];
             add(v4, families::slots_volatile(4).into_iter().filter(|u| u.label.contains("EO") || u.label.contains("EE")).take(12).collect());
+            add(late("late2x-volatile", true), families::late_gadget_volatile(2, true));
             if thorough {
                 add(s("S3D3-volatile", 3, m), families::slots_volatile(3));
                 let mut v4 = s("S4D2-volatile-k2-all", 2, m);
@@ -379,6 +415,9 @@ pub fn plan(p: u32, tier: &str) -> Vec<Run> {
             add(s3(false), families::slots(3));
             add(s4(false), families::slots(4));
             add(s4d2ff(), families::slots(4));
+            add(late("late2x", true), families::late_gadget(2, true));
+            add(late("latepair", true), families::late_pair());
+            add(late("bigshapes", true), families::big_shapes());
             add(s("S3D2-volatile", 2, m), families::slots_volatile(3));
             add(shapes_spec("shapes-D2", 2, false), families::shapes(true));
             if thorough {
@@ -737,6 +776,11 @@ pub fn cmd_run(args: &[String]) -> i32 {
         "rename-y" => families::rename_opts(true, Kind::O, false),
         "renameE" => families::rename(true, Kind::E),
         "shapes" => families::shapes(true),
+        "late2" => families::late_gadget(2, true),
+        "late3" => families::late_gadget(3, false),
+        "late3x" => families::late_gadget(3, true),
+        "bigshapes" => families::big_shapes(),
+        "latepair" => families::late_pair(),
         _ => {
             eprintln!("unknown family");
             return 2;
